@@ -82,6 +82,10 @@ Share == {
   P("share", In3(5, -3, 7) \o <<SLet("Signal", "x", Num(5)), SLet("Signal", "y", Bin("+", Ref("x"), A)), SLet("Signal", "z", Bin("+", Ref("x"), Num(1)))>>),
   P("share", In3(5, -3, 7) \o <<SLet("Signal", "x", Bin("+", Num(2), Num(3))), SLet("Signal", "y", Bin("*", Ref("x"), A))>>),
   P("share", In3(5, -3, 7) \o <<SLet("Signal", "x", A), SLet("Signal", "y", Bin("+", Ref("x"), B))>>),
+  P("share", In3(5, -3, 7) \o <<SLet("Signal", "x", Bin("*", A, Num(2))), SLet("Signal", "z", Bin("+", Ref("x"), Num(1))), SLet("Signal", "show", Ref("x"))>>),
+  P("share", In3(5, -3, 7) \o <<SLet("Signal", "show", Ref("a")), SLet("Signal", "z", Bin("+", A, Num(1)))>>),
+  P("share", In3(5, -3, 7) \o <<SLet("Signal", "s", Bin("+", A, B)), SLet("Signal", "z", Bin("*", Ref("s"), Num(2))), SLet("Signal", "p", Ref("s")), SLet("Signal", "q", Ref("s"))>>),
+  P("share", In3(5, -3, 7) \o <<SLet("Signal", "s", Bin("+", A, B)), SLet("Signal", "p", Ref("s")), SLet("Signal", "q", Ref("p")), SLet("Signal", "z", Bin("*", Ref("q"), Num(2)))>>),
   P("share", In3(5, -3, 7) \o <<SLet("Signal", "x", Bin("+", Bin("*", A, Num(2)), B)), SLet("Signal", "y", Bin("+", Bin("*", A, Num(3)), B))>>),
   P("share", In3(5, -3, 7) \o <<SLet("Signal", "x", Bin("+", Bin("*", A, Num(2)), B)), SLet("Signal", "y", Bin("+", Bin("*", C, Num(3)), B))>>),
   P("share", In3(5, -3, 7) \o <<SLet("Signal", "d", Bin("+", Bin("*", A, B), Bin("*", A, C))), SLet("Signal", "e", Bin("-", Bin("*", A, B), Bin("*", A, C)))>>)
